@@ -79,6 +79,10 @@ class Runner():
         def get_value(task_id, key_name):
             """get single value or dict from task's saved values"""
             if key_name is None:
+                if not self.dep_manager._in(task_id):
+                    # same error as when a single value is requested
+                    msg = "taskid '%s' has no computed value!"
+                    raise Exception(msg % task_id)
                 return self.dep_manager.get_values(task_id)
             return self.dep_manager.get_value(task_id, key_name)
 
